@@ -90,6 +90,10 @@ void harness(void) {
     return j
 
 
+def gridgen_keep(desc):
+    return (not desc.startswith("OBL:")) or bool(re.match(r"OBL:(coarse|radial_spacing|angular_spacing|spacing_array)", desc))
+
+
 def build_jobs(tier, seed):
     return [split_job(nt) for nt in (4, 6, 8, 12, 64)] + [split_job(4, "nr==2")] + [job_for(nt) for nt in (NTHETAS_QUICK if tier == "quick" else NTHETAS_THOROUGH)]
 
@@ -99,9 +103,9 @@ EXPLANATION = (
     "fastIndex, multiIndex(int,int&,int&) of polargrid.inl and the reference index(MultiIndex)/multiIndex(int) of polargrid.cpp: "
     "for each listed ntheta (both wrap code paths), EVERY nr in 2..17, EVERY split 0..nr, every node and EVERY 32-bit unwrapped "
     "angular index: range, congruence, periodicity, fast == reference, both compositions are the identity, circle/radial partition. "
-    "Bounded in ntheta only (a symbolic divisor does not terminate on any installed back end). Neighbour/spacing queries and "
-    "coarseningGrid (std::vector / std::array code) are not covered here; the spacing == coordinate difference contract is used as an "
-    "assumption by the Layer-R checks.")
+    "Bounded in ntheta only (a symbolic divisor does not terminate on any installed back end). Spacing arrays == coordinate differences "
+    "and coarseningGrid keeps every second radius / angle incl. both boundaries: decided by the grid-generation jobs (props/gridgen.py, "
+    "Layer R, bounded in the generation exponents). Neighbour queries (adjacentNeighborsOf / distances: std::array code) are not covered.")
 
 
 def index_replay_cb(job, key, label, rec):
@@ -124,6 +128,10 @@ def run(tier, seed, work):
     jobs = build_jobs(tier, seed)
     vlib.run_jobs(jobs, work)
     rep.absorb(jobs, replay_cb=index_replay_cb)
+    import gridgen
+    gj = gridgen.build_jobs("quick", seed)[::3] if tier == "quick" else gridgen.build_jobs("quick", seed)
+    vlib.run_jobs(gj, work)
+    rep.absorb(gj, replay_cb=gridgen.replay_cb, keep=gridgen_keep)
     rep.extraction = {"rules_fired": jobs[0].rules.summary(), "body_sha256_16": jobs[0].hashes}
     rep.trusted = ["CBMC 6.11 SAT back end", "extractor rules R1-R10 + C17.position/stddiv/return_multiindex", "32-bit int"]
     rep.assumptions = ["class invariant of the split fields (nsc + lsr == nr, node counts) as established by initializeLineSplitting",
